@@ -15,13 +15,19 @@ def check(res):
     f = factsmod.get_facts()
     status, out = coq_obligations(res, ["Properties_C01.v"])
     known = f["words"]["known_words"]["rows"]
-    s = lexgen.gen_c01(res.tier, res.seed)
-    st = run_script(res, s, known, "C01", in_scope)
+    if res.tier == "quick":
+        s = lexgen.gen_c01(res.tier, res.seed)
+        st = run_script(res, s, known, "C01", in_scope)
+        all_reqs = s.reqs
+    else:
+        scripts, st = run_histories(res, lambda k: lexgen.gen_c01(res.tier, res.seed * 1000 + k, n=(2500, 4000, 6000, 8000)[k % 4]), known, "C01", in_scope, 32)
+        s = scripts[0]
+        all_reqs = [r for sc in scripts for r in sc.reqs]
     if not all(status.values()) and not [v for v in res.violations if v["key"].startswith("oracle:")]:
         res.violation("coq:Properties_C01.v", "proof obligation no longer checks",
                       {"theorem_file": "Properties_C01.v", "error": coq_error_excerpt(out, "Properties_C01.v")}, no_input=True)
     ops = {}
-    for r in s.reqs:
+    for r in all_reqs:
         ops[r[0]] = ops.get(r[0], 0) + 1
     res.coverage.update({
         "evaluations": st["n"], "distinct_nontrivial": st.get("classes", 0),
@@ -31,7 +37,7 @@ def check(res):
                 "explicit false specification; distinct non-trivial = distinct identity classes returned by the implementation",
         "samples": [s.lines[i] for i in (len(s.lines) // 3, len(s.lines) // 2, len(s.lines) - 1)],
         "traces_validated_against_impl": st["n"],
-        "input_distribution": {"requests_by_constructor": ops},
+        "input_distribution": {"requests_by_constructor": ops, "independent_histories": st.get("histories", 1)},
         "cmp_sites_in_source": len(f["cmp_sites"]),
     })
     res.assumptions += ["references passed to the factories outlive the Lexicon; a Sequence handed to get_product/get_sum by reference is not mutated afterwards",
